@@ -143,6 +143,85 @@ def xsd (d : ClassDiagram) (comp : Nat) : XmlTree := render (xsdSpec d comp)
 def xsdByName (d : ClassDiagram) (name : String) : Option XmlTree :=
   (d.containers.find? (fun k => k.isComp && k.name == name)).map (fun k => xsd d k.id)
 
+/-! ### the file `gen_xsd_schema.main` writes
+
+  `ET.tostring(schema)` re-parsed by `xml.dom.minidom` and written by `toprettyxml(indent="    ")`:
+  `Element.writexml` (indent, `<tag`, ` key="value"` per attribute in order, `/>` for an element without
+  children, otherwise `>`, the children one level deeper, indent, `</tag>`, each line ended by a newline) and
+  `_write_data(writer, value, attr=True)` for the attribute values. -/
+
+/-- `xml.dom.minidom._write_data`: the replacements `&` (first) `<` `"` `>` — i.e. per character.  (Newer
+    Python versions also replace CR, LF and TAB inside attribute values, 3.12.1 writes them raw and an XML parser
+    then reads blanks: names with control characters are outside the domain.) -/
+def escChar (c : Char) : List Char :=
+  if c = '&' then "&amp;".toList
+  else if c = '<' then "&lt;".toList
+  else if c = '>' then "&gt;".toList
+  else if c = '\x22' then "&quot;".toList
+  else [c]
+
+def escAttr (s : List Char) : List Char := s.flatMap escChar
+
+def attrText (p : String × String) : List Char :=
+  ' ' :: p.1.toList ++ '=' :: '\x22' :: escAttr p.2.toList ++ ['\x22']
+
+def attrsText (attrs : List (String × String)) : List Char := attrs.flatMap attrText
+
+mutual
+  def nodeText (indent : List Char) : XmlTree → List Char
+    | .node tag attrs children =>
+      indent ++ '<' :: tag.toList ++ attrsText attrs ++
+        (match children with
+         | [] => "/>\n".toList
+         | c :: cs => ">\n".toList ++ nodesText ("    ".toList ++ indent) (c :: cs) ++ indent ++ '<' :: '/' :: tag.toList ++ ">\n".toList)
+  def nodesText (indent : List Char) : List XmlTree → List Char
+    | [] => []
+    | c :: cs => nodeText indent c ++ nodesText indent cs
+end
+
+/-! reading a start tag back (what an XML parser does with the attribute list; used to state that the escaping
+    is sound) -/
+
+/-- one of the four predefined entity references the writer produces, at the head of the text -/
+def entityAt : List Char → Option (Char × List Char)
+  | '&' :: 'a' :: 'm' :: 'p' :: ';' :: r => some ('&', r)
+  | '&' :: 'l' :: 't' :: ';' :: r => some ('<', r)
+  | '&' :: 'g' :: 't' :: ';' :: r => some ('>', r)
+  | '&' :: 'q' :: 'u' :: 'o' :: 't' :: ';' :: r => some ('\x22', r)
+  | _ => none
+
+def unescFuel : Nat → List Char → List Char
+  | 0, _ => []
+  | _ + 1, [] => []
+  | n + 1, c :: r =>
+    match entityAt (c :: r) with
+    | some (x, r') => x :: unescFuel n r'
+    | none => c :: unescFuel n r
+
+/-- expansion of the entity references of an attribute value -/
+def unescAttr (s : List Char) : List Char := unescFuel s.length s
+
+/-- ` key="value"` repeated: key up to `=`, value between double quotes, references expanded; stops at the
+    first character that is not a blank -/
+def readAttrs : Nat → List Char → Option (List (List Char × List Char) × List Char)
+  | 0, s => some ([], s)
+  | n + 1, ' ' :: s =>
+    let key := s.takeWhile (fun c => c != '=')
+    match s.dropWhile (fun c => c != '=') with
+    | '=' :: '\x22' :: s' =>
+      let raw := s'.takeWhile (fun c => c != '\x22')
+      match s'.dropWhile (fun c => c != '\x22') with
+      | '\x22' :: s'' =>
+        match readAttrs n s'' with
+        | some (more, rest) => some ((key, unescAttr raw) :: more, rest)
+        | none => none
+      | _ => none
+    | _ => none
+  | _ + 1, s => some ([], s)
+
+/-- the text of the written file -/
+def fileText (t : XmlTree) : List Char := "<?xml version=\"1.0\" ?>\n".toList ++ nodeText [] t
+
 /-! ### reading an XML tree -/
 
 def XmlTree.tag : XmlTree → String
